@@ -841,7 +841,8 @@ class ChannelScenario(Scenario):
 
     ITEMS = ("I0", "I1", "I2")
 
-    def __init__(self, name, prequeued=0, nevents=2, nqueues=1, nchannels=1):
+    def __init__(self, name, prequeued=0, nevents=2, nqueues=1, nchannels=1, fail_item=None):
+        self.fail_item = fail_item      # the user callback raises ValueError on this item (after recording it)
         self.model = py2ts.Model()
         ns = dict(vars(gb))
         classes = {"BaseGateway": gb.BaseGateway, "ChannelFactory": gb.ChannelFactory, "Channel": gb.Channel}
@@ -866,6 +867,13 @@ class ChannelScenario(Scenario):
             n = comp.m.new_node()
             seen = C(comp.U.classes["List"][1])
             comp.emit(ctx, cur, n, updates=[(("lst.push", seen), comp.scalar(x))], visible=True, info="callback(item) (stub: records the item)", node=node, sync="task")
+            if sc.fail_item is not None:
+                failcode = C(sc.items[sc.fail_item])
+                ok, boom = comp.m.new_node(), comp.m.new_node()
+                comp.emit(ctx, n, ok, guard=("ne", comp.scalar(x), failcode), visible=False)
+                comp.emit(ctx, n, boom, guard=("eq", comp.scalar(x), failcode), visible=False, info="callback raises ValueError")
+                comp.raise_to(ctx, boom, C(comp.U.exc("ValueError")), node)
+                return ok, C(NONE)
             return n, C(NONE)
 
         def s_first_arg(comp, ctx, node, cur):
@@ -1017,6 +1025,8 @@ class ChannelScenario(Scenario):
             def cb(x):
                 sched.sync("task")       # (the gate first: the effect belongs to this thread's turn)
                 seen.append("END" if x is END else x)
+                if self.fail_item is not None and x == self.fail_item:
+                    raise ValueError("boom")
 
             END = object()
             state = {"loads": gb.loads_internal}
